@@ -3,6 +3,7 @@ from sa import rules as RU
 from sa.cfg import Typestate, dominators, ev_dominates
 from sa.extract import library_units
 from sa.rules import argstr, where
+from sa.num import Num, Poly, Limit, entails
 
 CH = "source/log_channel.c"
 LG = "source/logging.c"
@@ -23,6 +24,80 @@ DECIDED = [
 NOT_DECIDED = ["per-thread FIFO order and no-loss under all schedules (only the schedule-independent protocol shape)", "content of the formatted prefix (libc formatting)"]
 ASSUMPTIONS = ["registered log subject names are shorter than 2^20 bytes and one formatted message is shorter than 2^30 bytes (the caller computes the line length in int)", "aws_mutex / condition variable semantics as documented", "aws_array_list push_back/swap_contents/clear have their documented sequence effect (C09)",
                "snprintf(buf,n,..) writes at most n bytes including the terminator and returns the untruncated length"]
+
+
+def send_contract(R, P):
+    """OWNERSHIP/send-contract: a channel's send either takes the line (destroys it or queues it) and reports success, or
+    reports failure and leaves the line to its caller - the pipeline destroys the line itself when send fails.  A send that
+    consumed the line returns the constant success value on that path."""
+    n = 0
+    for name, g in sorted(P.globals.items()):
+        st = (g.get("init") or {}).get("struct") if isinstance(g.get("init"), dict) else None
+        if not st or "send" not in st or "clean_up" not in st:
+            continue
+        f = P.fn((st.get("send") or {}).get("fn") or "")
+        if f is None:
+            continue
+        R.fn(f)
+        line = f.params[1]["n"] if len(f.params) > 1 else None
+        took = [e for e in f.calls({"aws_string_destroy", "aws_string_destroy_secure"}) if argstr(f, e.node, 0) == line] + [e for e in f.calls("aws_array_list_push_back") if line and line in argstr(f, e.node, 1)]
+        if not took:
+            continue
+        ts = Typestate(f, 0, lambda e, s: 1 if any(e is t_ for t_ in took) else s)
+        bad = []
+        for r_ in f.returns():
+            v = RU.uncast(f, r_.node["a"][0]) if r_.node["a"] else None
+            cv = f.is_const(v) if v is not None else None
+            for s_ in ts.before.get(r_.pos, set()):
+                n += 1
+                if s_ == 1 and cv != 0:
+                    bad.append("line %d returns %s after the line was consumed" % (r_.node["loc"][0], f.show(v) if v is not None else "nothing"))
+                if s_ == 0 and cv == 0:
+                    bad.append("line %d reports success without having taken the line" % r_.node["loc"][0])
+        R.check(not bad, "OWNERSHIP", "send-contract:%s" % f.name, "%s()" % f.name, "success is returned exactly on the paths that consumed the line",
+                "%s: %s - the pipeline destroys the line again when send reports a failure (double free), or leaks it" % (f.name, "; ".join(bad[:2])))
+    R.require(n >= 2, "only %d send return states analysed" % n)
+
+
+def subject_bounds(R, P):
+    """GATE/subject-table: the subject table of a package is indexed only below its registered count (NUM): an id one past
+    the table reads an entry that does not exist (its name is then fed to strlen and %s)"""
+    from sa.awslib import AwsHooks, in_bounds
+    from sa.bounds import access_sites, addr_size
+    f = P.fn("s_get_log_subject_info_by_id")
+    if not R.require(f is not None, "s_get_log_subject_info_by_id not found"):
+        return
+    R.fn(f)
+    esz = (P.records.get("aws_log_subject_info") or {}).get("size") or 24
+
+    class H(AwsHooks):
+        def fresh_field(self, num, st, key, rec, fl, atom):
+            if rec == "aws_log_subject_info_list" and fl == "subject_list":
+                cnt = num.field(st, key, rec, "count")
+                st.extent[atom] = cnt * esz
+                st.add(Poly.const(1) - Poly.atom(atom))
+                return
+            AwsHooks.fresh_field(self, num, st, key, rec, fl, atom)
+    num = Num(f, P, H(), max_paths=4000)
+    sites = [s for s in access_sites(f, include_addr=True) if "subject_list" in f.show(s[2])]
+    if not R.require(bool(sites), "subject table access not found"):
+        return
+    try:
+        sts = num.states_at({s[0] for s in sites})
+    except Limit as ex:
+        R.broken(str(ex))
+        return
+    ok, det, cnt = True, "", 0
+    for eid, kind, nd in sites:
+        for st in sts.get(eid, []):
+            s2 = st.copy()
+            for (D, sz, mode) in addr_size(num, s2, kind, nd):
+                cnt += 1
+                r = in_bounds(s2, D, Poly.const(esz))
+                if r[0] != "ok":
+                    ok, det = False, r[1]
+    R.check(ok and cnt > 0, "GATE", "subject-table:index-below-count", "%s()" % f.name, "subject_list[subject_index] is reached only with subject_index < count (%d states)" % cnt,
+            "the subject table is indexed with subject_index == count (%s): the entry behind the registered table is returned and its name printed into the line" % det)
 
 
 def vtables_complete(R, P):
@@ -67,6 +142,8 @@ def analyse(ctx, replace=None, only=None):
 
     gate(R, P, lg)
     vtables_complete(R, P)
+    send_contract(R, P)
+    subject_bounds(R, P)
     ownership(R, ch, lg)
     background(R, ch)
     from rules import C14_line
@@ -400,6 +477,9 @@ MUTANTS = [
      "old": "    aws_mutex_lock(&impl->sync);\n    (channel->writer->vtable->write)(channel->writer, log_line);\n    aws_mutex_unlock(&impl->sync);",
      "new": "    aws_mutex_lock(&impl->sync);\n    aws_mutex_unlock(&impl->sync);\n    (channel->writer->vtable->write)(channel->writer, log_line);"},
     {"name": "thread-id-cache-not-thread-local", "file": "source/log_formatter.c", "expect": "LINE", "old": "AWS_THREAD_LOCAL struct {\n    bool is_valid;", "new": "static struct {\n    bool is_valid;"},
+    {"name": "foreground-send-returns-writer-result", "file": "source/log_channel.c", "expect": "OWNERSHIP", "old": "    (channel->writer->vtable->write)(channel->writer, log_line);\n    aws_mutex_unlock(&impl->sync);\n\n    /*", "new": "    int result = (channel->writer->vtable->write)(channel->writer, log_line);\n    aws_mutex_unlock(&impl->sync);\n\n    /*",
+     "old2": "    aws_string_destroy(log_line);\n\n    return AWS_OP_SUCCESS;\n}\n\nstatic void s_foreground_channel_clean_up", "new2": "    aws_string_destroy(log_line);\n\n    return result;\n}\n\nstatic void s_foreground_channel_clean_up"},
+    {"name": "subject-index-equal-to-count-accepted", "file": LG, "expect": "GATE", "old": "    if (!subject_slot || subject_index >= subject_slot->count) {", "new": "    if (!subject_slot || subject_index > subject_slot->count) {"},
     {"name": "owned-vtable-without-set-level", "file": LG, "expect": "GATE", "old": "    .clean_up = s_aws_logger_pipeline_owned_clean_up,\n    .set_log_level = s_aws_logger_pipeline_set_log_level,", "new": "    .clean_up = s_aws_logger_pipeline_owned_clean_up,"},
     {"name": "line-sized-without-subject", "file": "source/log_formatter.c", "expect": "LINE", "old": "    int total_length = required_length + MAX_LOG_LINE_PREFIX_SIZE + subject_name_len;", "new": "    int total_length = required_length + MAX_LOG_LINE_PREFIX_SIZE;"},
     {"name": "noalloc-buffer-static", "file": LG, "expect": "LINE", "old": "    char format_buffer[MAXIMUM_NO_ALLOC_LOG_LINE_SIZE];", "new": "    static char format_buffer[MAXIMUM_NO_ALLOC_LOG_LINE_SIZE];"},
